@@ -166,7 +166,13 @@ func (s *server) closeListener() {
 // serve
 
 func (s *server) serve(ctx async.Context) status.Status {
-	ln := s.ln.MustUnwrap()
+	s.mu.Lock()
+	ln, ok := s.ln.Unwrap()
+	s.mu.Unlock()
+	if !ok {
+		return status.OK // stopped before serving
+	}
+
 	delay := time.Duration(0)
 	timeout := false
 
